@@ -21,3 +21,14 @@ CHECKS["C02"] = (
     "exhaustive for all ordered pairs of <=2-block locations over a small genome x 3 strands x all flag combinations and all unary operations on <=3-block layouts; random larger pairs incl. engineered touching/nesting, self-overlapping operands and mismatched parents; three defects repaired (F10, F11, F13)",
     "DESIGN.md 5/C02",
 )
+
+CHECKS["C05"] = (
+    "runtime monitoring: reading-frame reference model (exon walker + Biopython tables) compared with codon locations, both extract_sequence paths, scan_codons, translate, start/stop flags, chromosome windows and generated frames of real CDSInterval objects",
+    "exhaustive for all 1..3-block CDS layouts over a small genome x strands x every frame vector in {0,1,2}^k x every chromosome window; random CDS with IUPAC/lower-case letters and engineered start/stop codons; two recorded findings (K13, K18), one repaired (F14)",
+    "DESIGN.md 5/C05",
+)
+CHECKS["C20"] = (
+    "runtime monitoring: plain-Python aggregate oracle (min/max, set union, documented primary rule, frame/sequence models) and twin comparison evaluated on real GeneInterval / FeatureIntervalCollection / AnnotationCollection objects",
+    "all tuples of 1..3 children over a palette of (CDS length, spliced length) pairs in every order (all tie patterns), flags none/one/several, same/mixed strands, five parent kinds; random genes and collections; one recorded finding (K2), one repaired (F15)",
+    "DESIGN.md 5/C20",
+)
